@@ -47,6 +47,10 @@ pub struct Outcome {
     pub harness_problem: bool,
     pub notes: Vec<&'static str>,
     pub constructs: Vec<&'static str>,
+    /// decode directions: the reference bytes dust-dds failed on and, for a wrong value, the path of
+    /// the first difference
+    pub ref_bytes: Vec<u8>,
+    pub diff: Option<String>,
 }
 
 fn ok(notes: Vec<&'static str>, constructs: Vec<&'static str>) -> Outcome {
@@ -58,6 +62,8 @@ fn ok(notes: Vec<&'static str>, constructs: Vec<&'static str>) -> Outcome {
         harness_problem: false,
         notes,
         constructs,
+        ref_bytes: Vec::new(),
+        diff: None,
     }
 }
 
@@ -74,6 +80,8 @@ pub fn evaluate(dt: dust_dds::xtypes::dynamic_type::DynamicType<'static>, t: &Ty
         harness_problem: hp,
         notes: vec![],
         constructs: vec![],
+        ref_bytes: Vec::new(),
+        diff: None,
     };
     match dir {
         Dir::Encode => {
@@ -196,15 +204,23 @@ pub fn evaluate(dt: dust_dds::xtypes::dynamic_type::DynamicType<'static>, t: &Ty
                                     e.used.iter().copied().collect(),
                                 );
                             }
-                            ("dec_fail|other_value".to_string(), "dust-dds decodes the reference bytes to a different value".to_string(), false)
+                            let d = crate::c09::first_diff(t, v, &v2);
+                            (
+                                "dec_fail|other_value".to_string(),
+                                format!("dust-dds decodes the reference bytes to a different value, first difference at {}", d),
+                                false,
+                                Some(d),
+                            )
                         }
-                        Err(m) => ("dec_fail|other_value".to_string(), m, false),
+                        Err(m) => ("dec_fail|other_value".to_string(), m, false, None),
                     },
-                    Run::Err(er) => (format!("dec_fail|error:{}", err_class(&er)), er, false),
-                    Run::Panic(p) => (format!("dec_panic|{}", p.sig()), format!("{} at {}", p.msg, p.location), !p.in_dust()),
+                    Run::Err(er) => (format!("dec_fail|error:{}", err_class(&er)), er, false, None),
+                    Run::Panic(p) => (format!("dec_panic|{}", p.sig()), format!("{} at {}", p.msg, p.location), !p.in_dust(), None),
                 };
                 if first_fail.is_none() {
                     let mut o = fail(res.0, res.1, &[], &e.bytes, res.2);
+                    o.ref_bytes = e.bytes.clone();
+                    o.diff = res.3;
                     o.constructs = e.used.iter().copied().collect();
                     first_fail = Some(o);
                 }
@@ -256,8 +272,7 @@ pub fn report_failure(rep_out: &mut Report, t: &Ty, v: &Val, rep: Rep, dir: Dir,
     rep_out.stat("shrink_evaluations", evals as i128);
     let dt = build_type(&mt);
     let fin = evaluate(dt, &mt, &mv, rep, dir);
-    use crate::classify::{Mode, decode_cause, encode_cause, features, panic_cause};
-    let feats = features(&mt, &mv);
+    use crate::classify::{BytesFrom, DecodeCase, Probe, decode_cause, encode_cause, panic_cause};
     let unclassified = || format!("unclassified|shape={}|val={}", root_class(&mt), value_class(&mt, &mv));
     let sig = if let Some(p) = fam.strip_prefix("dec_panic|") {
         format!("xcdr_diff|dir={}|dec_panic|rep={}|cause={}", dir.name(), ver_name(rep), panic_cause(p))
@@ -265,16 +280,40 @@ pub fn report_failure(rep_out: &mut Report, t: &Ty, v: &Val, rep: Rep, dir: Dir,
         format!(
             "xcdr_diff|dir=encode|enc_diff|rep={}|cause={}",
             ver_name(rep),
-            encode_cause(&feats, rep.ver()).map(|c| c.to_string()).unwrap_or_else(unclassified)
+            Some(vcore::unhex(&fin.dust_hex))
+                .filter(|dust| !dust.is_empty())
+                .and_then(|dust| encode_cause(&mt, &mv, rep, &dust))
+                .map(|c| c.to_string())
+                .unwrap_or_else(unclassified)
         )
     } else {
-        let mode = if dir == Dir::DecodeOptimized { Mode::RefOptimized } else { Mode::RefPlain };
+        let outcome = if fin.key.starts_with("dec_fail|error:") {
+            Probe::Error
+        } else {
+            fin.diff.clone().map(Probe::Wrong).unwrap_or(Probe::Other)
+        };
+        let cause = if fam == "dec_fail" && !fin.ref_bytes.is_empty() {
+            decode_cause(
+                &DecodeCase {
+                    wt: &mt,
+                    wv: &mv,
+                    rt: &mt,
+                    rep,
+                    bytes: &fin.ref_bytes,
+                    from: if dir == Dir::DecodeOptimized { BytesFrom::RefOptimized } else { BytesFrom::RefPlain },
+                    outcome,
+                },
+                &mut |other| crate::c09::probe_decode(dt, &mt, &mv, other),
+            )
+        } else {
+            None
+        };
         format!(
             "xcdr_diff|dir={}|{}|rep={}|cause={}",
             dir.name(),
             fam,
             ver_name(rep),
-            decode_cause(&feats, rep.ver(), mode).map(|c| c.to_string()).unwrap_or_else(unclassified)
+            cause.map(|c| c.to_string()).unwrap_or_else(unclassified)
         )
     };
     let what = format!(
@@ -424,9 +463,10 @@ fn report_death(rep: &mut Report, dir: &str, t: &Ty, v: &Val, r: Rep, d: Dir, de
     rep.violation(sig, what, case_json(&mt, &mv, r, d).set("outcome", death_class));
 }
 
+/// No known finding kills the process any more (905bdfe, b28f9ea): a death is never classified.
 fn death_sig(d: Dir, death_class: &str, r: Rep) -> String {
     format!(
-        "xcdr_diff|dir={}|{}|rep={}|cause=misparse_consequence",
+        "xcdr_diff|dir={}|{}|rep={}|cause=unclassified",
         d.name(),
         crate::c09::death_kind(death_class).replace("de_", "dec_"),
         ver_name(r)
